@@ -9,6 +9,8 @@ import time
 from collections import Counter
 from fractions import Fraction
 
+import os
+
 import z3
 
 SOLVER_TIMEOUT_MS = 60_000
@@ -659,9 +661,13 @@ class Ctx:
         Nothing is recorded: a failed probe is not an obligation."""
         clause = tob(clause)
         s = self.solver
+        try:
+            lf = max(1.0, min(6.0, os.getloadavg()[0] / (os.cpu_count() or 1)))     # wall-clock budget on a busy machine
+        except OSError:
+            lf = 1.0
         s.push()
         try:
-            s.set("timeout", timeout_ms)
+            s.set("timeout", int(timeout_ms * lf))
             s.add(z3.Not(clause))
             r = s.check()
         finally:
